@@ -690,10 +690,16 @@ int n1(int);
 }
 static GInt g_n1(GInt x) { return x; }
 
-static void chain_event(const std::string& chain, const void* got, const char* outc)
+static void chain_event(const std::string& chain, const void* got, const char* outc, const char* op = "", const void* from = nullptr)
 {
   tr::Ev e("ptrchain");
-  e.str("chain", chain).str("own", "s0").str("out", outc);
+  e.str("chain", chain).str("own", "s0").str("out", outc).str("op", op).num("size", SIZE);
+  {
+    // where the pointer the last operation was applied to pointed (offset in s0, -1 = null)
+    long foff = 0;
+    e.num("from", from == nullptr ? -1 : which_sandbox(from, foff) == 0 ? foff : -2);
+    e.num("pssize", (long)sizeof(tainted_volatile<PS, Sbx>));
+  }
   long off = 0;
   if (std::strcmp(outc, "ok") != 0) {
     e.str("cls", "abort");
@@ -710,10 +716,10 @@ static void chain_event(const std::string& chain, const void* got, const char* o
   out.put(e);
 }
 
-static const int NOPS = 21;
+static const int NOPS = 22;
 static const char* OPNAMES[NOPS] = { "+1", "-1", "+4095", "-4095", "+4096", "-4096", "&[1]", "&[-1]", "&[1<<20]",
                                      "cast-int*+1", "opaque", "cell", "+(1<<62)", "-(u64)-3", "cast-ll*-1", "memset-ret",
-                                     "arr4[3]", "arr4[4]", "arr4[2^32+1]", "arr4[u64:-2^32+1]", "&PS->d" };
+                                     "arr4[3]", "arr4[4]", "arr4[2^32+1]", "arr4[u64:-2^32+1]", "&PS->d", "&PS[0].d" };
 static bool apply_op(int op, tainted<char*, Sbx>& p, tainted<char**, Sbx> cellp)
 {
   switch (op) {
@@ -781,9 +787,13 @@ static bool apply_op(int op, tainted<char*, Sbx>& p, tainted<char**, Sbx> cellp)
     case 19:
       p = &(*sandbox_reinterpret_cast<char(*)[4]>(p))[0xffffffff00000001ULL];
       break;
-    default:
+    case 20:
       // address of the last field of a struct the pointer is taken to point to
       p = sandbox_reinterpret_cast<char*>(&(sandbox_reinterpret_cast<PS*>(p)->d));
+      break;
+    default:
+      // the same through indexing: p[0] designates the element by its address alone
+      p = sandbox_reinterpret_cast<char*>(&(sandbox_reinterpret_cast<PS*>(p)[0].d));
       break;
   }
   return true;
@@ -799,7 +809,7 @@ static void chain_dfs(const std::string& name, tainted<char*, Sbx> p, tainted<ch
     const char* r = guarded([&] { apply_op(op, q, cellp); });
     std::string nm = name + " " + OPNAMES[op];
     const void* got = std::strcmp(r, "ok") == 0 ? q.UNSAFE_unverified() : nullptr;
-    chain_event(nm, got, r);
+    chain_event(nm, got, r, OPNAMES[op], p.UNSAFE_unverified());
     if (std::strcmp(r, "ok") == 0) {
       long off;
       // continue only from results the Contract accepts (null or inside): anything else is
